@@ -19,7 +19,7 @@ ASSUMPTIONS = [LEVEL_NOTE, "HOME is empty"]
 
 
 def plan(tier):
-    return {"n": 60 if tier == "quick" else 1000, "floor": 20 if tier == "quick" else 300}
+    return {"n": 60 if tier == "quick" else 240, "floor": 20 if tier == "quick" else 72}
 
 
 def rule(tier):
